@@ -123,6 +123,112 @@ Lemma dec_ptr_nonneg : forall strict fuel dcap pcap m sid wa,
   0 <= snd (dec_ptr strict fuel dcap pcap m sid wa).
 Proof. intros. eapply dec_ptr_nonneg_le. apply le_n. Qed.
 
+(* ------------------------------------------------------------------ the side condition of walk_eq_spec *)
+(* "every list MET BY THE DECODER has fewer than 2^29 elements" (the reader rejects larger
+   composite tag counts: known finding).  The condition follows the decoder: it concerns only
+   the words the decoder reads as pointers, under the same caps -- the pointer at (sid, wa),
+   the pointer slots of the struct / the elements of the list it resolves to, and so on for
+   [fuel] levels.  Data words, padding and unreachable garbage are not constrained. *)
+Definition vrepr_view (rec : Z -> Z -> Prop) (pcap : Z) (v : sview) : Prop :=
+  forall i, 0 <= i < Z.of_nat (count_cap (sv_pc v) pcap) -> rec (sv_seg v) (sv_ptr_word v i).
+
+Fixpoint vrepr (fuel : nat) (pcap : Z) (m : list (list Z)) (sid wa : Z) {struct fuel} : Prop :=
+  match spec_resolve false m sid wa with
+  | None => True
+  | Some t =>
+    list_repr t /\
+    match fuel with
+    | O => True
+    | S f =>
+      match t with
+      | TgtStruct seg a dw pc => vrepr_view (vrepr f pcap m) pcap (sv_of_struct seg a dw pc)
+      | TgtList seg a e n dw pc =>
+        if e =? 6 then forall i, 0 <= i < Z.of_nat (count_cap n pcap) -> vrepr f pcap m seg (a + i)
+        else if e =? 7 then
+          match f with
+          | O => True
+          | S f' => forall i, 0 <= i < Z.of_nat (count_cap n pcap) ->
+                    vrepr_view (vrepr f' pcap m) pcap (mkSV seg (8 * (a + i * (dw + pc))) (8 * dw) pc)
+          end
+        else True
+      | _ => True
+      end
+    end
+  end.
+
+(* executable form, for concrete messages *)
+Definition list_repr_b (t : target) : bool :=
+  match t with TgtList _ _ _ n _ _ => n <? 536870912 | _ => true end.
+
+Definition vcheck_view (rec : Z -> Z -> bool) (pcap : Z) (v : sview) : bool :=
+  forallb (fun i => rec (sv_seg v) (sv_ptr_word v i)) (zseq 0 (count_cap (sv_pc v) pcap)).
+
+Fixpoint vrepr_check (fuel : nat) (pcap : Z) (m : list (list Z)) (sid wa : Z) {struct fuel} : bool :=
+  match spec_resolve false m sid wa with
+  | None => true
+  | Some t =>
+    list_repr_b t &&
+    match fuel with
+    | O => true
+    | S f =>
+      match t with
+      | TgtStruct seg a dw pc => vcheck_view (vrepr_check f pcap m) pcap (sv_of_struct seg a dw pc)
+      | TgtList seg a e n dw pc =>
+        if e =? 6 then forallb (fun i => vrepr_check f pcap m seg (a + i)) (zseq 0 (count_cap n pcap))
+        else if e =? 7 then
+          match f with
+          | O => true
+          | S f' => forallb (fun i => vcheck_view (vrepr_check f' pcap m) pcap
+                                        (mkSV seg (8 * (a + i * (dw + pc))) (8 * dw) pc))
+                            (zseq 0 (count_cap n pcap))
+          end
+        else true
+      | _ => true
+      end
+    end
+  end.
+
+Lemma zseq_In : forall k a i, a <= i < a + Z.of_nat k -> In i (zseq a k).
+Proof.
+  induction k as [|k IH]; intros a i H; [lia|]. cbn [zseq].
+  destruct (Z.eq_dec i a) as [->|N]; [left; reflexivity|right; apply IH; lia].
+Qed.
+
+Lemma list_repr_b_sound : forall t, list_repr_b t = true -> list_repr t.
+Proof. intros t H. destruct t; cbn in *; try exact Logic.I. lia. Qed.
+
+Lemma vcheck_view_sound : forall (rb : Z -> Z -> bool) (rp : Z -> Z -> Prop) pcap v,
+  (forall s w, rb s w = true -> rp s w) -> vcheck_view rb pcap v = true -> vrepr_view rp pcap v.
+Proof.
+  intros rb rp pcap v H C i Hi. unfold vcheck_view in C. rewrite forallb_forall in C.
+  apply H. apply C. apply zseq_In. lia.
+Qed.
+
+Lemma vrepr_check_sound_le : forall n fuel, (fuel <= n)%nat -> forall pcap m sid wa,
+  vrepr_check fuel pcap m sid wa = true -> vrepr fuel pcap m sid wa.
+Proof.
+  induction n as [|n IH]; intros fuel Hle pcap m sid wa H.
+  - assert (fuel = O) by lia. subst fuel. cbn [vrepr_check vrepr] in *.
+    destruct (spec_resolve false m sid wa) as [t|]; [|exact Logic.I].
+    apply andb_prop in H. split; [apply list_repr_b_sound; tauto|exact Logic.I].
+  - destruct fuel as [|f].
+    { cbn [vrepr_check vrepr] in *. destruct (spec_resolve false m sid wa) as [t|]; [|exact Logic.I].
+      apply andb_prop in H. split; [apply list_repr_b_sound; tauto|exact Logic.I]. }
+    cbn [vrepr_check vrepr] in *. destruct (spec_resolve false m sid wa) as [t|]; [|exact Logic.I].
+    apply andb_prop in H. destruct H as [H1 H2]. split; [apply list_repr_b_sound; exact H1|].
+    destruct t as [|i|sg a dw pc|sg a e k dw pc]; try exact Logic.I.
+    + eapply vcheck_view_sound; [|exact H2]. intros s w. apply IH. lia.
+    + destruct (e =? 6).
+      * intros i Hi. rewrite forallb_forall in H2. apply IH; [lia|]. apply H2. apply zseq_In. lia.
+      * destruct (e =? 7); [|exact Logic.I]. destruct f as [|f']; [exact Logic.I|].
+        intros i Hi. rewrite forallb_forall in H2.
+        eapply vcheck_view_sound; [|apply H2; apply zseq_In; lia]. intros s w. apply IH. lia.
+Qed.
+
+Lemma vrepr_check_sound : forall fuel pcap m sid wa,
+  vrepr_check fuel pcap m sid wa = true -> vrepr fuel pcap m sid wa.
+Proof. intros fuel. apply (vrepr_check_sound_le fuel fuel (le_n _)). Qed.
+
 Section Walk.
 Variable c : config.
 Variable m : list (list Z).
@@ -130,13 +236,13 @@ Variables dcap pcap : Z.
 Hypothesis Hstrict : cfg_strict c = true.
 Hypothesis Hb : bytes_ok m.
 Hypothesis Hsm : segs_small m.
-Hypothesis Hrep : forall sid wa t, spec_resolve false m sid wa = Some t -> list_repr t.
 Let fx := mkFix true true true.
 
 Definition P (fuel : nat) : Prop := forall rl sid s wa depth,
   seg_at m sid = Some s -> in_words s wa 1 = true ->
   Z.of_nat fuel < depth < 18446744073709551616 -> 0 <= rl ->
   snd (dec_ptr false fuel dcap pcap m sid wa) <= rl ->
+  vrepr fuel pcap m sid wa ->
   (let '(r, rl1) := readPtr true m rl sid s (8 * wa) depth in walk c fx m dcap pcap fuel rl1 r)
   = (fst (dec_ptr false fuel dcap pcap m sid wa), rl - snd (dec_ptr false fuel dcap pcap m sid wa)).
 
@@ -144,7 +250,7 @@ Lemma readPtr_of_spec : forall rl sid s wa depth,
   seg_at m sid = Some s -> in_words s wa 1 = true -> 0 < depth ->
   match spec_resolve false m sid wa with
   | None => readPtr true m rl sid s (8 * wa) depth = (Err, rl)
-  | Some t => tgt_cost t <= rl ->
+  | Some t => list_repr t -> tgt_cost t <= rl ->
               exists cs, readPtr true m rl sid s (8 * wa) depth =
                          (Ok (ptr_of_target (uint_dec depth) cs t), rl - tgt_cost t)
   end.
@@ -152,7 +258,7 @@ Proof.
   intros rl sid s wa depth Hs Hin Hd.
   assert (Hl : lookup_segment m sid = Ok s) by (rewrite lookup_seg_at, Hs; reflexivity).
   destruct (spec_resolve false m sid wa) as [t|] eqn:SR.
-  - intros HC. eapply read_ptr_complete; eauto. right. lia.
+  - intros LR HC. eapply read_ptr_complete; eauto. right. lia.
   - pose proof (readPtr_spec m rl sid s wa depth Hb Hs) as M. rewrite SR in M.
     apply (proj2 M). split; assumption.
 Qed.
@@ -160,11 +266,12 @@ Qed.
 Lemma walk_struct : forall f, P f -> forall v d mem rl,
   sview_ok m v -> Z.of_nat f < d < 18446744073709551616 -> 0 <= rl ->
   snd (dec_struct (dec_ptr false f dcap pcap m) m dcap pcap v) <= rl ->
+  vrepr_view (vrepr f pcap m) pcap v ->
   walk c fx m dcap pcap (S f) rl (Ok (ptr_of_sview d mem v)) =
   (fst (dec_struct (dec_ptr false f dcap pcap m) m dcap pcap v),
    rl - snd (dec_struct (dec_ptr false f dcap pcap m) m dcap pcap v)).
 Proof.
-  intros f PF v d mem rl OK Hd Hrl HC.
+  intros f PF v d mem rl OK Hd Hrl HC HV.
   rewrite dec_struct_eq in *. cbn [fst snd] in *.
   cbn [walk].
   change (p_valid (ptr_of_sview d mem v)) with true.
@@ -186,7 +293,7 @@ Proof.
     destruct (struct_ptr_spec c m rl0 d mem v i OK ltac:(lia)) as [E _]. rewrite E.
     destruct (i <? sv_pc v) eqn:G; [|lia].
     rewrite Hstrict. unfold seg_or_nil. rewrite Hs.
-    apply PF; try assumption.
+    apply PF; try assumption; [|apply HV; lia].
     unfold in_words, sv_ptr_word, seg_small, maxSegmentSize in *.
     destruct Hal as [Hal|Hal]; [lia|]. lia.
   - exact Hrl.
@@ -219,10 +326,18 @@ Lemma walk_list : forall f, P f -> (forall f', f = S f' -> P f') ->
                               | S f' => dec_struct (dec_ptr false f' dcap pcap m) m dcap pcap v
                               end) m pcap (TgtList sg a e n dw pc) in
   snd D - tgt_cost (TgtList sg a e n dw pc) <= rl ->
+  (if e =? 6 then forall i, 0 <= i < Z.of_nat (count_cap n pcap) -> vrepr f pcap m sg (a + i)
+   else if e =? 7 then
+     match f with
+     | O => True
+     | S f' => forall i, 0 <= i < Z.of_nat (count_cap n pcap) ->
+               vrepr_view (vrepr f' pcap m) pcap (mkSV sg (8 * (a + i * (dw + pc))) (8 * dw) pc)
+     end
+   else True) ->
   walk c fx m dcap pcap (S f) rl (Ok (ptr_of_target d cs (TgtList sg a e n dw pc))) =
   (fst D, rl - (snd D - tgt_cost (TgtList sg a e n dw pc))).
 Proof.
-  intros f PF PF' sg a e n dw pc d cs rl OK Hd Hrl D HC. subst D.
+  intros f PF PF' sg a e n dw pc d cs rl OK Hd Hrl D HC HV. subst D.
   pose proof OK as OK'. cbn [list_ok] in OK'. destruct OK' as (W & LR & s & Hs & Hss & Hin).
   cbn [tgt_wf list_repr] in W, LR. destruct W as (Ha & He & Hn & Hdw & Hpc & Hz).
   cbn [walk].
@@ -256,7 +371,8 @@ Proof.
       + cbn [walk ptr_of_sview p_valid negb fst snd]. f_equal.  lia.
       + assert (Dd : (if d =? 0 then 0 else uint_dec d) = d - 1).
         { destruct (d =? 0) eqn:D0; [lia|]. unfold uint_dec, u64. lia. }
-        rewrite Dd. apply walk_struct; [apply PF'; reflexivity| |lia|exact H0|exact H1].
+        rewrite Dd. apply walk_struct; [apply PF'; reflexivity| |lia|exact H0|exact H1|].
+        2:{ assert (E6f : (e =? 6) = false) by lia. rewrite E6f in HV. apply HV. lia. }
         (* the element is a well-formed struct view *)
         pose proof (elem_index_bound i n (dw + pc) ltac:(lia) ltac:(lia)) as B.
         destruct Hin as [Ha1 Hin].
@@ -276,7 +392,7 @@ Proof.
       pose proof (ptrlist_at_spec c m rl0 d cs (TgtList sg a e n dw pc) i OK ltac:(cbv iota; lia)) as PS.
       cbv beta iota in PS. rewrite E6 in PS. destruct PS as [PS _]. rewrite PS.
       rewrite Hstrict. unfold seg_or_nil. rewrite Hs.
-      apply PF; try assumption.
+      apply PF; try assumption; [|apply HV; lia].
       rewrite He6 in Hin. unfold in_words, list_bytes in *. cbn [Z.eqb Pos.eqb] in Hin. lia.
     - exact Hrl.
     - destruct (sum_costs _ 0 _) as [es cc]. cbn [fst snd] in *. lia. }
@@ -299,26 +415,27 @@ Lemma P_all : forall n fuel, (fuel <= n)%nat -> P fuel.
 Proof.
   induction n as [|n IH]; intros fuel Hle.
   - assert (fuel = O) by lia. subst fuel.
-    intros rl sid s wa depth Hs Hin Hd Hrl HC.
+    intros rl sid s wa depth Hs Hin Hd Hrl HC HV.
     pose proof (readPtr_of_spec rl sid s wa depth Hs Hin ltac:(lia)) as R.
-    cbn [dec_ptr] in *.
+    cbn [dec_ptr vrepr] in *.
     destruct (spec_resolve false m sid wa) as [t|] eqn:SR.
     2:{ rewrite R. cbn [walk fst snd]. f_equal. lia. }
     destruct (spec_resolve_facts _ _ _ _ _ SR) as [W I]. pose proof (tgt_cost_nonneg t W) as C.
+    destruct HV as [LR _]. specialize (R LR).
     destruct t as [|i|sg a dw pc|sg a e n0 dw pc]; cbn [fst snd tgt_cost] in *;
       (destruct (R ltac:(lia)) as [cs E]; rewrite E; cbn [walk ptr_of_target p_valid nullPtr negb]; f_equal; lia).
   - destruct fuel as [|f].
     { apply IH. lia. }
     assert (PF : P f) by (apply IH; lia).
     assert (PF' : forall f', f = S f' -> P f') by (intros f' ->; apply IH; lia).
-    intros rl sid s wa depth Hs Hin Hd Hrl HC.
+    intros rl sid s wa depth Hs Hin Hd Hrl HC HV.
     pose proof (readPtr_of_spec rl sid s wa depth Hs Hin ltac:(lia)) as R.
     assert (Hud : uint_dec depth = depth - 1) by (unfold uint_dec, u64; lia).
-    cbn [dec_ptr] in *.
+    cbn [dec_ptr vrepr] in *.
     destruct (spec_resolve false m sid wa) as [t|] eqn:SR.
     2:{ rewrite R. cbn [walk fst snd]. f_equal. lia. }
     destruct (spec_resolve_facts _ _ _ _ _ SR) as [W I]. pose proof (tgt_cost_nonneg t W) as C.
-    pose proof (Hrep _ _ _ SR) as LR.
+    destruct HV as [LR HV]. specialize (R LR).
     destruct t as [|i|sg a dw pc|sg a e n0 dw pc].
     + cbn [fst snd] in *. destruct (R ltac:(cbn [tgt_cost]; lia)) as [cs E]. rewrite E.
       cbn [walk ptr_of_target p_valid nullPtr negb tgt_cost]. f_equal; lia.
@@ -331,7 +448,7 @@ Proof.
       destruct (R ltac:(lia)) as [cs E]. rewrite E. rewrite Hud.
       change (ptr_of_target (depth - 1) cs (TgtStruct sg a dw pc))
         with (ptr_of_sview (depth - 1) false (sv_of_struct sg a dw pc)).
-      rewrite (walk_struct f PF); [rewrite ED; cbn [fst snd]; f_equal; lia| |lia|lia|rewrite ED; cbn [snd]; lia].
+      rewrite (walk_struct f PF); [rewrite ED; cbn [fst snd]; f_equal; lia| |lia|lia|rewrite ED; cbn [snd]; lia|exact HV].
       apply sview_ok_of_struct; assumption.
     + set (D := dec_list (dec_ptr false f dcap pcap m)
                   (fun v => match f with
@@ -353,19 +470,21 @@ Proof.
           cbn [snd] in *. assert (0 <= cc); [|lia]. apply SN. intros i0. apply dec_ptr_nonneg. }
         destruct (e =? 0); cbn [snd]; lia. }
       destruct (R ltac:(lia)) as [cs E]. rewrite E. rewrite Hud.
-      rewrite (walk_list f PF PF'); [fold D; f_equal; lia| |lia|lia|fold D; lia].
+      rewrite (walk_list f PF PF'); [fold D; f_equal; lia| |lia|lia|fold D; lia|exact HV].
       apply list_ok_of_target; assumption.
 Qed.
 
-(* walk_eq_spec (full statement): for every message, every caps and every fuel: when the
-   segments fit the address space, element counts are
-   representable, the depth limit exceeds the fuel and the budget covers the specification's
-   traversal cost, walking from any in-bounds pointer word gives exactly the specification's
-   tree and consumes exactly the specification's cost. *)
+(* walk_eq_spec: for every message, every caps and every fuel: when the segments fit the
+   address space, every list MET BY THE DECODER under these caps has a representable element
+   count ([vrepr]: only words the decoder reads as pointers are constrained, not data words),
+   the depth limit exceeds the fuel and the budget covers the specification's traversal cost,
+   walking from any in-bounds pointer word gives exactly the (lenient) specification tree and
+   consumes exactly the specification's cost. *)
 Theorem walk_eq_spec : forall fuel rl sid s wa depth,
   seg_at m sid = Some s -> in_words s wa 1 = true ->
   Z.of_nat fuel < depth < 18446744073709551616 -> 0 <= rl ->
   spec_cost false fuel dcap pcap m sid wa <= rl ->
+  vrepr fuel pcap m sid wa ->
   (let '(r, rl1) := readPtr true m rl sid s (8 * wa) depth in
    walk c fx m dcap pcap fuel rl1 r)
   = (spec_decode false fuel dcap pcap m sid wa, rl - spec_cost false fuel dcap pcap m sid wa).
@@ -374,33 +493,58 @@ Proof. intros fuel. exact (P_all fuel fuel (le_n _)). Qed.
 
 End Walk.
 
-(* non-vacuity of the side conditions of walk_eq_spec: the one-word message holding a null
-   root satisfies them (the conclusion is exercised on a three-segment message in
-   SpecExamples.ex_walk_tree / ex_spec_tree) *)
-Definition zero_msg : list (list Z) := [[0; 0; 0; 0; 0; 0; 0; 0]].
+(* ------------------------------------------------------------------ non-vacuity *)
+From CV Require Import Spec.SpecExamples.
 
-Lemma zero_seg_word : forall wa, word_at [0; 0; 0; 0; 0; 0; 0; 0] wa = 0.
+(* A three-segment message like SpecExamples.ex_msg (root = FAR pointer to a struct; its first
+   pointer a DOUBLE-FAR pointer to a composite list; a capability; a text) whose DATA words look
+   like hostile pointers: the struct's data words are 0x0000000700000001 (a composite list
+   pointer, offset 0) followed by 0x80000000 (read as a tag: 2^29 elements of size 0), and the
+   second list element's data word is 0x80000000 again.  Reading word 1 of segment 1 as a
+   pointer gives a list of 2^29 elements, so a condition over ALL words fails on this
+   message; the decoder never reads these words as pointers, [vrepr] holds, and walk_eq_spec
+   applies. *)
+Definition ex_msg2 : list (list Z) :=
+  [[2; 0; 0; 0; 1; 0; 0; 0; 8; 0; 0; 0; 1; 0; 1; 0; 7; 0; 0; 0; 0; 0; 0; 0; 0; 0; 0; 0; 0; 0; 0; 0; 0; 0; 0; 128; 0; 0; 0; 0; 3; 0; 0; 0; 5; 0; 0; 0];
+   [0; 0; 0; 0; 2; 0; 2; 0; 1; 0; 0; 0; 7; 0; 0; 0; 0; 0; 0; 128; 0; 0; 0; 0; 6; 0; 0; 0; 2; 0; 0; 0; 1; 0; 0; 0; 26; 0; 0; 0; 104; 105; 0; 0; 0; 0; 0; 0];
+   [10; 0; 0; 0; 0; 0; 0; 0; 1; 0; 0; 0; 39; 0; 0; 0]].
+
+Definition ex_tree2 : tree :=
+  TStruct [1; 0; 0; 0; 7; 0; 0; 0; 0; 0; 0; 128; 0; 0; 0; 0]
+    [TComp 2 (mkOS 8 1) [TStruct [7; 0; 0; 0; 0; 0; 0; 0] [TNull]; TStruct [0; 0; 0; 128; 0; 0; 0; 0] [TCap 5]];
+     TPrim 1 3 [104; 105; 0]].
+
+Example ex2_bytes_ok : bytes_ok ex_msg2.
+Proof. unfold bytes_ok, seg_ok, ex_msg2. repeat (constructor; [repeat (constructor; [lia|])|]); constructor. Qed.
+
+Example ex2_segs_small : segs_small ex_msg2.
+Proof. unfold segs_small, seg_small, ex_msg2, blen, maxSegmentSize. repeat constructor; cbn; lia. Qed.
+
+Example ex2_vrepr : vrepr 6 8 ex_msg2 0 0.
+Proof. apply vrepr_check_sound. vm_compute. reflexivity. Qed.
+
+(* the condition quantified over every word (the earlier formulation) is false here *)
+Example ex2_all_words_condition_fails :
+  ~ (forall sid wa t, spec_resolve false ex_msg2 sid wa = Some t -> list_repr t).
 Proof.
-  intros wa. unfold word_at.
-  assert (B : forall i, byte_at [0; 0; 0; 0; 0; 0; 0; 0] i = 0).
-  { intros i. unfold byte_at. destruct (i <? 0); [reflexivity|].
-    destruct (Z.to_nat i) as [|[|[|[|[|[|[|[|k]]]]]]]]; try reflexivity. destruct k; reflexivity. }
-  cbn [le_num]. rewrite !B. reflexivity.
+  intro H. specialize (H 1 1 (TgtList 1 3 7 536870912 0 0)).
+  assert (E : spec_resolve false ex_msg2 1 1 = Some (TgtList 1 3 7 536870912 0 0)) by (vm_compute; reflexivity).
+  specialize (H E). cbn in H. lia.
 Qed.
 
-Lemma zero_msg_seg : forall sid s, seg_at zero_msg sid = Some s -> s = [0; 0; 0; 0; 0; 0; 0; 0].
+(* all hypotheses of walk_eq_spec hold for this message; its conclusion, instantiated *)
+Example ex2_walk_eq_spec_applies :
+  (let '(r, rl1) := readPtr true ex_msg2 1000000 0 (nth 0 ex_msg2 []) (8 * 0) 64 in
+   walk ex_cfg (mkFix true true true) ex_msg2 64 8 6 rl1 r)
+  = (spec_decode false 6 64 8 ex_msg2 0 0, 1000000 - spec_cost false 6 64 8 ex_msg2 0 0)
+  /\ spec_decode false 6 64 8 ex_msg2 0 0 = ex_tree2.
 Proof.
-  intros sid s H. apply seg_at_nth in H. destruct H as [-> R]. cbn in R.
-  assert (sid = 0) by lia. subst sid. reflexivity.
-Qed.
-
-Example walk_eq_spec_hyps_satisfiable :
-  bytes_ok zero_msg /\ segs_small zero_msg /\
-  (forall sid wa t, spec_resolve false zero_msg sid wa = Some t -> list_repr t).
-Proof.
-  split; [repeat constructor; lia|]. split; [repeat constructor; unfold seg_small, blen, maxSegmentSize; cbn; lia|].
-  { intros sid wa t H. unfold spec_resolve in H. destruct (seg_at zero_msg sid) as [s|] eqn:Hs; [|discriminate].
-    apply zero_msg_seg in Hs. subst s. destruct (negb _); [discriminate|].
-    rewrite zero_seg_word in H. change (ptr_kind 0 =? 2) with false in H. cbv iota in H.
-    unfold spec_near in H. change (0 =? 0) with true in H. cbv iota in H. inversion H. exact Logic.I. }
+  split; [|vm_compute; reflexivity].
+  apply (walk_eq_spec ex_cfg ex_msg2 64 8 eq_refl ex2_bytes_ok ex2_segs_small 6 1000000 0 (nth 0 ex_msg2 []) 0 64).
+  - reflexivity.
+  - reflexivity.
+  - cbn; lia.
+  - lia.
+  - vm_compute. discriminate.
+  - exact ex2_vrepr.
 Qed.
